@@ -834,6 +834,20 @@ KINDS = {  # name -> (slot, recipe, rows, cols)
     "sum_if": ("su_if", {"k": "sum", "args": [ID, DN]}, N, N),
     "bd_if": ("bd_if", {"k": "blockdiag", "args": [I2, D2]}, 4, 4),
     "sliced_full": ("sl_full", {"k": "sliced_cls", "of": DN, "s0": [0, N], "s1": [0, N]}, N, N),
+    # user operators whose product is a view of its argument, alone and as first / last part of every composite
+    "flip": ("Fl", {"k": "userview", "n": N, "mode": "flip"}, N, N),
+    "alias": ("Al", {"k": "userview", "n": N, "mode": "alias"}, N, N),
+    "kronsum_flipf": ("ks_ff", {"k": "kronsum", "args": [{"k": "userview", "n": 2, "mode": "flip"}, D2]}, 4, 4),
+    "kronsum_flipl": ("ks_fl", {"k": "kronsum", "args": [D2, {"k": "userview", "n": 2, "mode": "flip"}]}, 4, 4),
+    "kronsum_aliasf": ("ks_af", {"k": "kronsum", "args": [{"k": "userview", "n": 2, "mode": "alias"}, D2]}, 4, 4),
+    "kron_flipf": ("kr_ff", {"k": "kron", "args": [{"k": "userview", "n": 2, "mode": "flip"}, D2]}, 4, 4),
+    "kron_aliasl": ("kr_al", {"k": "kron", "args": [D2, {"k": "userview", "n": 2, "mode": "alias"}]}, 4, 4),
+    "sum_flipf": ("su_ff", {"k": "sum", "args": [{"k": "userview", "n": N, "mode": "flip"}, DN]}, N, N),
+    "sum_aliasf": ("su_af", {"k": "sum", "args": [{"k": "userview", "n": N, "mode": "alias"}, DN, DG]}, N, N),
+    "prod_flipf": ("pr_ff", {"k": "product", "args": [{"k": "userview", "n": N, "mode": "flip"}, DN]}, N, N),
+    "prod_aliasl": ("pr_al", {"k": "product", "args": [DN, {"k": "userview", "n": N, "mode": "alias"}]}, N, N),
+    "bd_flipf": ("bd_ff", {"k": "blockdiag", "args": [{"k": "userview", "n": 2, "mode": "flip"}, D2]}, 4, 4),
+    "kron_single_identity": ("kr_1i", {"k": "kron", "args": [I2]}, 2, 2),
     # column-major and transposed-view payloads (what LAPACK wrappers may overwrite without a copy)
     "dense_f": ("Dfo", {"k": "dense", "n": N, "seed": 131, "sym": "gen", "layout": "f"}, N, N),
     "psd_f": ("Pfo", _psd({"k": "dense", "n": N, "seed": 132, "sym": "psd", "layout": "f"}), N, N),
